@@ -374,7 +374,7 @@ def abbreviate(obj: Any, max_len: int = 1500) -> Any:
 
 
 def write_replay(prop_id: str, violation: Dict[str, Any]) -> str:
-    d = os.path.join(VERIF_DIR, "replays")
+    d = os.path.join(VERIF_DIR, "replays" if os.path.abspath(REPO_DIR) == "/repo" else ".scratch_replays")
     os.makedirs(d, exist_ok=True)
     h = "%016x" % case_hash(violation["case"])
     path = os.path.join(d, f"{prop_id}-{h}.json")
@@ -396,7 +396,9 @@ def write_replay(prop_id: str, violation: Dict[str, Any]) -> str:
 
 def write_evidence(prop_id: str, tier: str, seed: int, coverage: Dict[str, Any], wall_s: float, violations: int,
                    assumptions: List[str], level: str = "exploration") -> str:
-    d = os.path.join(VERIF_DIR, "evidence")
+    # evidence is only evidence when it comes from /repo itself; runs against scratch copies (mutants, seeded changes)
+    # write to an ignored directory instead
+    d = os.path.join(VERIF_DIR, "evidence" if os.path.abspath(REPO_DIR) == "/repo" else ".scratch_evidence")
     os.makedirs(d, exist_ok=True)
     path = os.path.join(d, f"{prop_id}.json")
     doc = {
